@@ -217,9 +217,10 @@ def overlay_for(driver_cfg, pid):
     """Overlay JSON injecting hooks + vh + this driver package into /repo's module."""
     repl = {}
     hdir = os.path.join(ROOT, "harness")
-    for f in sorted(os.listdir(os.path.join(hdir, "vh"))):
-        if f.endswith(".go"):
-            repl[os.path.join(REPO, "internal/verifharness/vh", f)] = os.path.join(hdir, "vh", f)
+    for shared in ("vh", "e2e"):   # shared harness packages: line protocol, end-to-end runner
+        for f in sorted(os.listdir(os.path.join(hdir, shared))):
+            if f.endswith(".go"):
+                repl[os.path.join(REPO, "internal/verifharness", shared, f)] = os.path.join(hdir, shared, f)
     ddir = os.path.join(hdir, "drivers", driver_cfg["pkg"])
     for f in sorted(os.listdir(ddir)):
         if f.endswith(".go"):
